@@ -137,6 +137,17 @@ fn main() {
         .ok()
         .and_then(|s| s.trim().parse::<u64>().ok())
         .unwrap_or(DEFAULT_SEED);
+    // scratch directories of earlier checks that were killed (their process is gone) are removed
+    if let Ok(rd) = std::fs::read_dir("/dev/shm") {
+        for e in rd.flatten() {
+            let name = e.file_name().to_string_lossy().to_string();
+            if let Some(pid) = name.strip_prefix("qsim.").and_then(|p| p.parse::<u32>().ok()) {
+                if !std::path::Path::new(&format!("/proc/{pid}")).exists() {
+                    let _ = std::fs::remove_dir_all(e.path());
+                }
+            }
+        }
+    }
     let scratch = std::path::PathBuf::from(format!("/dev/shm/qsim.{}", std::process::id()));
     let _ = std::fs::create_dir_all(&scratch);
     let quizx_bin = std::env::var("QSIM_QUIZX_BIN").ok().map(std::path::PathBuf::from);
